@@ -335,7 +335,7 @@ def summarise(records, tier, seed):
         "evaluations": ag["evaluations"],
         "distinct_nontrivial": len(ag["hashes"]),
         "rule": "construct table (exp(1), pi, sqrt(2), rationals, rational exponents, Not over every relation, And/Or/Not nests, nested and constant conditions, Abs/Mod/floor, ContinuousConditional, extreme "
-        "literals, negative values), an annotated multi-component model, comments, corpus, random models; evaluation = save + load (twice) and generated calls of the reloaded model; non-trivial = "
+        "literals, negative values), declared defaults over the decades 1e-290..1e300 in plain and ScalarParam form, an annotated multi-component model, comments, corpus, random models; evaluation = save + load (twice) and generated calls of the reloaded model; non-trivial = "
         ">= 2 values (monitor_values, explicit_euler, generalized_rush_larsen) of the reloaded model compared by name with the reference of the ORIGINAL text; distinct by structural hash",
         "samples": C.pick_samples(records),
         "per_class_cases": ag["classes"],
